@@ -60,18 +60,19 @@ def run_one(d, checks=None):
             res['demo_patched_exit'] = 'timeout'
         r = sh(f'/verif/tools/baseline.py {t}')
         res['suite'] = r.stdout.strip().splitlines()[0] if r.stdout else r.stderr[:100]
-        caught = {}
+        caught, errors = {}, {}
         for pid in (checks or ALL):
             if not (V / 'rules' / f'{pid.lower()}.py').exists():
                 continue
             keys, rc, out = check_keys(pid, t, w)
             bkeys = base_keys.get(pid, set())
             fresh = sorted(keys - bkeys)
-            if rc == 2 and base_rc.get(pid) != 2:
-                caught[pid] = ['ANALYSIS-ERROR: ' + ' '.join(l for l in out.splitlines() if 'ANALYSIS-ERROR' in l)[:200]]
-            elif fresh:
+            if fresh:
                 caught[pid] = [k[:220] for k in fresh[:4]]
+            elif rc == 2 and base_rc.get(pid) != 2:
+                errors[pid] = ' '.join(l for l in out.splitlines() if 'ANALYSIS-ERROR' in l or 'SHAPE-MISMATCH' in l)[:300]
         res['caught_by'] = caught
+        res['analysis_error_only'] = errors
         return res
     finally:
         sh(f'git -C /repo worktree remove --force {t}')
@@ -104,7 +105,7 @@ def main():
             meta['last_run'] = res
             (d / 'meta.json').write_text(json.dumps(meta, indent=1))
             c = res.get('caught_by', {})
-            return f"{n:14s} prop={meta['property']} demo {res.get('demo_clean_exit')}->{res.get('demo_patched_exit')} suite[{res.get('suite','')[-22:]}] caught_by={sorted(c) or '-'} {res.get('error','')}"
+            return f"{n:14s} prop={meta['property']} demo {res.get('demo_clean_exit')}->{res.get('demo_patched_exit')} suite[{res.get('suite','')[-22:]}] reported_by={sorted(c) or '-'} error_only={sorted(res.get('analysis_error_only', {})) or '-'} {res.get('error','')}"
 
         with ThreadPoolExecutor(max_workers=int(os.environ.get('SEED_JOBS', '6'))) as ex:
             for line in ex.map(job, names):
